@@ -58,6 +58,14 @@ def gen(seed):
             s.update({'a': 'call', 'fn': 'thread_start', 'tname': 'T%d' % k, 'kind': kind,
                       'name': name, 'occ': rng.randrange(repeat)})
             plan.append(s)
+            if kind == 'lowlevel' and rng.random() < 0.35:
+                # it makes itself known to threading at some later point (logging,
+                # threading.current_thread()): same thread, different object in the tables
+                e = dict(rng.choice(sites + lsites))
+                e.update({'a': 'call', 'fn': 'thread_poke', 'tname': 'T%d' % k})
+                if rng.random() < 0.7:
+                    e['occ'] = rng.randrange(repeat * 2)
+                plan.append(e)
             r = rng.random()
             if r < 0.75:
                 e = dict(rng.choice(sites + lsites))
@@ -77,6 +85,7 @@ def gen(seed):
         opt['extra'] = ['--ignore-new-thread=%s' % x for x in ign]
     # starts before ends at the same site; raises last
     plan = [e for e in plan if e.get('fn') == 'thread_start'] + \
+           [e for e in plan if e.get('fn') == 'thread_poke'] + \
            [e for e in plan if e.get('fn') == 'thread_end'] + \
            [e for e in plan if e['a'] != 'call']
     return {'property': ID, 'seed': seed, 'world': world, 'plan': plan, 'opt': opt,
@@ -93,7 +102,12 @@ def expected_reports(spec, res, tw):
     # timeline index of every thread op
     started = {}
     ended = {}
+    poked = {}
     for i, ev in enumerate(events):
+        if ev[1] == 'fault' and ev[2] == 'call:thread_poke':
+            tn = plan[ev[3]]['tname']
+            if tn in started and tn not in ended and tw.reg[tn]['kind'] == 'lowlevel':
+                poked.setdefault(tn, i)
         if ev[1] == 'fault' and ev[2] == 'call:thread_start':
             started.setdefault(plan[ev[3]]['tname'], i)
         elif ev[1] == 'fault' and ev[2] == 'call:thread_end':
@@ -119,16 +133,18 @@ def expected_reports(spec, res, tw):
                     else 'Dummy-%d' % rec['sim']
                 if any(p.match(name) for p in ign):
                     continue
-                leaked.append(thread_repr(rec))
+                # (once it is known to threading it is shown as a thread object)
+                rp = thread_repr(rec, known=(tn in poked and poked[tn] < hi))
+                leaked.append(rp)
                 if rec['sim'] in at_start:
-                    shadow[(oc['tid'], thread_repr(rec))] = at_start[rec['sim']]
+                    shadow[(oc['tid'], rp)] = at_start[rec['sim']]
         if leaked:
             out.append((oc['tid'], sorted(leaked)))
     return out, shadow
 
 
-def thread_repr(rec):
-    if rec['kind'] == 'threading':
+def thread_repr(rec, known=False):
+    if rec['kind'] == 'threading' or known:
         return '<Thread %s>' % rec['tname']
     return 'DummyThread %d, started, daemon' % rec['sim']
 
@@ -142,7 +158,7 @@ def run(spec, ctx):
     old = TS.current_frames, TS.threading
     TS.current_frames = tw.current_frames
     TS.threading = threadsim.ThreadingSeam(tw)
-    calls = {'thread_start': tw.start, 'thread_end': tw.end}
+    calls = {'thread_start': tw.start, 'thread_end': tw.end, 'thread_poke': tw.poke}
     orig_install = simrt.install
 
     def install(*a, **kw):
@@ -179,6 +195,7 @@ def run(spec, ctx):
             else:
                 extra.append(g)
         by_repr = {thread_repr(rec): rec for rec in tw.reg.values()}
+        by_repr.update({thread_repr(rec, True): rec for rec in tw.reg.values()})
         detail = 'expected reports %r, runner printed %r; thread ops %r' % (want, got, tw.log)
         sigs = set()
         for s_, r in missing:
